@@ -29,7 +29,8 @@ func frame(typ int, body []byte) []byte {
 }
 
 // Cap is one capability of an OPEN: kind 'a' (4-octet AS, V=asn), 'm' (multiprotocol, A=afi S=safi),
-// 'p' (add-path tuple A,S,V=send/receive), 'r' (role V), 'u' (unknown code V, two zero bytes of value).
+// 'p' (add-path tuple A,S,V=send/receive), 'r' (role V), 'x' (extended next hop tuple A,S,V=next hop AFI),
+// 'u' (unknown code V, two zero bytes of value).
 type Cap struct {
 	Kind    byte
 	A, S, V uint32
@@ -45,6 +46,8 @@ func (c Cap) String() string {
 		return fmt.Sprintf("p%d.%d.%d", c.A, c.S, c.V)
 	case 'r':
 		return fmt.Sprintf("r%d", c.V)
+	case 'x':
+		return fmt.Sprintf("x%d.%d.%d", c.A, c.S, c.V)
 	default:
 		return fmt.Sprintf("u%d", c.V)
 	}
@@ -91,7 +94,7 @@ func parseCaps(s string) ([]Cap, error) {
 				return nil, fmt.Errorf("bad capability %q", t)
 			}
 			c.A, c.S = nums[0], nums[1]
-		case 'p':
+		case 'p', 'x':
 			if len(nums) != 3 {
 				return nil, fmt.Errorf("bad capability %q", t)
 			}
@@ -116,6 +119,8 @@ func capBytes(c Cap) []byte {
 		return []byte{69, 4, byte(c.A >> 8), byte(c.A), byte(c.S), byte(c.V)}
 	case 'r':
 		return []byte{9, 1, byte(c.V)}
+	case 'x':
+		return []byte{5, 6, byte(c.A >> 8), byte(c.A), byte(c.S >> 8), byte(c.S), byte(c.V >> 8), byte(c.V)}
 	default:
 		return []byte{byte(c.V), 2, 0, 0}
 	}
@@ -181,6 +186,48 @@ func UpdateBytes(ann, wd []int, ebgp bool, peerAS uint32, asn4, addPath bool) []
 	body = append(body, byte(len(attrs)>>8), byte(len(attrs)))
 	body = append(body, attrs...)
 	body = append(body, nlri(ann)...)
+	return frame(2, body)
+}
+
+// PoisonBytes: announce 10.<rid>.0.0/16 with v in the AS_PATH (byASN) or in a CLUSTER_LIST attribute.
+func PoisonBytes(rid int, byASN bool, v uint32, ebgp bool, peerAS uint32, asn4, addPath bool) []byte {
+	var asns []uint32
+	if ebgp {
+		asns = append(asns, peerAS)
+	}
+	if byASN {
+		asns = append(asns, v)
+	}
+	attrs := []byte{0x40, 1, 1, 0}
+	if len(asns) == 0 {
+		attrs = append(attrs, 0x40, 2, 0)
+	} else if asn4 {
+		attrs = append(attrs, 0x40, 2, byte(2+4*len(asns)), 2, byte(len(asns)))
+		for _, a := range asns {
+			attrs = append(attrs, byte(a>>24), byte(a>>16), byte(a>>8), byte(a))
+		}
+	} else {
+		attrs = append(attrs, 0x40, 2, byte(2+2*len(asns)), 2, byte(len(asns)))
+		for _, a := range asns {
+			if a > 65535 {
+				a = 23456
+			}
+			attrs = append(attrs, byte(a>>8), byte(a))
+		}
+	}
+	attrs = append(attrs, 0x40, 3, 4, 192, 0, 2, 77)
+	if !ebgp {
+		attrs = append(attrs, 0x40, 5, 4, 0, 0, 0, 100)
+	}
+	if !byASN {
+		attrs = append(attrs, 0x80, 10, 4, byte(v>>24), byte(v>>16), byte(v>>8), byte(v))
+	}
+	body := []byte{0, 0, byte(len(attrs) >> 8), byte(len(attrs))}
+	body = append(body, attrs...)
+	if addPath {
+		body = append(body, 0, 0, 0, 1)
+	}
+	body = append(body, 16, 10, byte(rid))
 	return frame(2, body)
 }
 
@@ -308,6 +355,10 @@ func parseSentOpen(body []byte) (string, bool) {
 				}
 			case code == 9 && cl == 1:
 				caps = append(caps, fmt.Sprintf("r%d", cv[0]))
+			case code == 5 && cl%6 == 0 && cl > 0:
+				for i := 0; i+6 <= cl; i += 6 {
+					caps = append(caps, fmt.Sprintf("x%d.%d.%d", binary.BigEndian.Uint16(cv[i:i+2]), binary.BigEndian.Uint16(cv[i+2:i+4]), binary.BigEndian.Uint16(cv[i+4:i+6])))
+				}
 			default:
 				caps = append(caps, fmt.Sprintf("u%d", code))
 			}
